@@ -39,7 +39,7 @@ func checkC16(p *Prog, r *Report) {
 	fi := p.FuncOf(p.Method("fecDecoder", "decode"))
 	c := p.CFG(fi)
 	fa := p.FactsOf(fi)
-	recv := tVar(p.recvVar(fi))
+	recv := tVar(p.selfVar(fi))
 	in := tVar(p.Info.Defs[fi.Decl.Type.Params.List[0].Names[0]])
 	seq := p.ExpandHelpers(tCall(p.Method("fecPacket", "seqid"), in))
 	flag := p.ExpandHelpers(tCall(p.Method("fecPacket", "flag"), in))
@@ -48,48 +48,7 @@ func checkC16(p *Prog, r *Report) {
 	exp := func(t *Term) *Term { return stripConvs(p.ExpandHelpers(t)) }
 
 	// ---- T1
-	nTrue := 0
-	var falseStores []FieldStore
-	for _, st := range p.FieldStores(fShould) {
-		if st.Rhs == nil {
-			r.bad("C16.T1", st.Fn.Name, p.Pos(st.Node), "store(shouldTune)", "modified in place", "")
-			continue
-		}
-		t := p.Term(st.Rhs)
-		if t.Op == "false" {
-			falseStores = append(falseStores, st)
-			continue
-		}
-		nTrue++
-		if st.Fn != fi || t.Op != "true" {
-			r.bad("C16.T1", st.Fn.Name, p.Pos(st.Node), "shouldTune = "+exprString(st.Rhs), "tuning is started outside decode or with a computed value", "")
-			continue
-		}
-		pt, _ := c.PointOf(st.Node)
-		conds := c.DominatingConds(pt)
-		posData := exp(lt(mk("%", seq, F("shardSize")), F("dataShards")))
-		var isDataPos, isParityPos, neData, neParity bool
-		for _, ct := range conds {
-			e := exp(ct)
-			switch {
-			case e.Key() == posData.Key():
-				isDataPos = true
-			case e.Key() == exp(Negate(posData)).Key():
-				isParityPos = true
-			case e.Key() == exp(ne(flag, tConst(p.ConstInt("typeData")))).Key():
-				neData = true
-			case e.Key() == exp(ne(flag, tConst(p.ConstInt("typeParity")))).Key():
-				neParity = true
-			}
-		}
-		okPaws := fa.AtNode(st.Node).Holds(lt(seq, F("paws")))
-		ok := okPaws && ((isDataPos && neData && !isParityPos) || (isParityPos && neParity && !isDataPos))
-		r.check(ok, "C16.T1", fi.Name, p.Pos(st.Node), "shouldTune = true", "under a type/position contradiction, after seqid < paws",
-			fmt.Sprintf("tuning starts without evidence (data position: %v, flag != data: %v, parity position: %v, flag != parity: %v, seqid < paws: %v): genuine packets of a matching sender can suspend decoding", isDataPos, neData, isParityPos, neParity, okPaws))
-	}
-	if nTrue == 0 {
-		r.bad("C16.T1", fi.Name, p.Pos(fi.Node), "shouldTune = true", "the decoder never starts tuning: it cannot adopt the sender's ratio", "")
-	}
+	falseStores := checkTuneEvidence(p, r, "C16.T1")
 
 	// ---- T2
 	params := []string{"dataShards", "parityShards", "shardSize", "codec", "paws", "decodeCache", "flagCache", "shardSet"}
@@ -462,7 +421,7 @@ func checkC16(p *Prog, r *Report) {
 					spt, _ := kc.PointOf(st.Node)
 					underNil := false
 					for _, ct := range kc.DominatingConds(spt) {
-						if ct.Key() == eq(tFld(tVar(p.recvVar(ki)), p.Field("UDPSession", "fecDecoder")), mk("nil")).Key() {
+						if ct.Key() == eq(tFld(tVar(p.selfVar(ki)), p.Field("UDPSession", "fecDecoder")), mk("nil")).Key() {
 							underNil = true
 						}
 					}
@@ -688,4 +647,78 @@ func usesNewRatio(p *Prog, c *CFG, fi *FuncInfo, st FieldStore, pt Point) string
 		}
 	}
 	return ""
+}
+
+// checkTuneEvidence: every store shouldTune = true is under a type/position
+// contradiction, after the paws test (C16.T1, also the type-by-position half of C07.F10).
+// It returns the stores shouldTune = false.
+func checkTuneEvidence(p *Prog, r *Report, ruleT1 string) []FieldStore {
+	fi := p.FuncOf(p.Method("fecDecoder", "decode"))
+	c := p.CFG(fi)
+	fa := p.FactsOf(fi)
+	recv := tVar(p.selfVar(fi))
+	in := tVar(p.Info.Defs[fi.Decl.Type.Params.List[0].Names[0]])
+	seq := p.ExpandHelpers(tCall(p.Method("fecPacket", "seqid"), in))
+	flag := p.ExpandHelpers(tCall(p.Method("fecPacket", "flag"), in))
+	F := func(n string) *Term { return p.F(recv, "fecDecoder", n) }
+	fShould := p.Field("fecDecoder", "shouldTune")
+	exp := func(t *Term) *Term { return stripConvs(p.ExpandHelpers(t)) }
+	nTrue := 0
+	var falseStores []FieldStore
+	for _, st := range p.FieldStores(fShould) {
+		if st.Rhs == nil {
+			r.bad(ruleT1, st.Fn.Name, p.Pos(st.Node), "store(shouldTune)", "modified in place", "")
+			continue
+		}
+		t := p.Term(st.Rhs)
+		if t.Op == "false" {
+			falseStores = append(falseStores, st)
+			continue
+		}
+		nTrue++
+		if st.Fn != fi || t.Op != "true" {
+			r.bad(ruleT1, st.Fn.Name, p.Pos(st.Node), "shouldTune = "+exprString(st.Rhs), "tuning is started outside decode or with a computed value", "")
+			continue
+		}
+		pt, _ := c.PointOf(st.Node)
+		conds := c.DominatingConds(pt)
+		posData := exp(lt(mk("%", seq, F("shardSize")), F("dataShards")))
+		var isDataPos, isParityPos, neData, neParity bool
+		var cjs []*Term
+		for _, ct := range conds {
+			cjs = append(cjs, Conjuncts(p.resolveSingleDefs(fi, ct))...)
+		}
+		// a test moved into a boolean helper stands for the disjunction of its true paths: every alternative must be
+		// evidence (one obligation per alternative)
+		okPaws := fa.AtNode(st.Node).Holds(lt(seq, F("paws")))
+		alts := p.expandBoolHelpers(cjs)
+		for k, alt := range alts {
+			isDataPos, isParityPos, neData, neParity = false, false, false, false
+			for _, ct := range alt {
+				e := exp(ct)
+				switch {
+				case e.Key() == posData.Key():
+					isDataPos = true
+				case e.Key() == exp(Negate(posData)).Key():
+					isParityPos = true
+				case e.Key() == exp(ne(flag, tConst(p.ConstInt("typeData")))).Key():
+					neData = true
+				case e.Key() == exp(ne(flag, tConst(p.ConstInt("typeParity")))).Key():
+					neParity = true
+				}
+			}
+			ok := okPaws && ((isDataPos && neData && !isParityPos) || (isParityPos && neParity && !isDataPos))
+			construct := "shouldTune = true"
+			if len(alts) > 1 {
+				construct = fmt.Sprintf("shouldTune = true (case %d of the helper's test)", k+1)
+			}
+			r.check(ok, ruleT1, fi.Name, p.Pos(st.Node), construct, "under a type/position contradiction, after seqid < paws",
+				fmt.Sprintf("tuning starts without evidence (data position: %v, flag != data: %v, parity position: %v, flag != parity: %v, seqid < paws: %v): genuine packets of a matching sender can suspend decoding", isDataPos, neData, isParityPos, neParity, okPaws))
+		}
+	}
+	if nTrue == 0 {
+		r.bad(ruleT1, fi.Name, p.Pos(fi.Node), "shouldTune = true", "the decoder never starts tuning: it cannot adopt the sender's ratio", "")
+	}
+
+	return falseStores
 }
